@@ -31,12 +31,12 @@ func init() {
 	core.Register(&core.Property{
 		ID:    "C11",
 		Level: "model_checking",
-		Rule: "universe = 14 import-editing changes (add, add named, delete, rename path, rename name, name an unnamed import, drop a name, metavariable-named rename on named and unnamed file imports, match-only, replace by another package, paths ending in /v1) x every subset (<=3, thorough <=4) of other imports {named, blank, dot, plain, commented} x layout {grouped, single declarations, two blocks} x position of the affected import x remaining uses of the affected package name {none, plain selector elsewhere, chained selector, inside a call argument, only at the rewritten site} x {API, CLI, CLI --skip-import-processing}. " +
+		Rule: "universe = 21 import-editing changes (7 of them listing two or three imports in one change, add, add named, delete, rename path, rename name, name an unnamed import, drop a name, metavariable-named rename on named and unnamed file imports, match-only, replace by another package, paths ending in /v1) x every subset (<=3, thorough <=4) of other imports {named, blank, dot, plain, commented} x layout {grouped, single declarations, two blocks} x position of the affected import x remaining uses of the affected package name {none, plain selector elsewhere, chained selector, inside a call argument, only at the rewritten site, only through a shadowing parameter / local variable} x {API, CLI, CLI --skip-import-processing}. " +
 			"Relational oracle from the statement over the sets of (name, path) of input and output. non-trivial = the change applies",
 		Assumptions: []string{
 			"an import on a context line (matched, neither added nor deleted) that is no longer referred to is unspecified: no assertion",
 			"when a '+' import takes over the package name of a '-' import, the '-' import is expected to be gone (replacement), although the file still uses that name",
-			"a local variable shadowing the package name is not generated",
+			"a parameter or local variable shadowing the package name is not a reference to the package (uses=shadowed)",
 		},
 		Bounds:  func(tier string) map[string]any { return map[string]any{"other_imports_subset": c11Subset(tier)} },
 		NewCase: func() any { return &C11Case{} },
@@ -79,6 +79,14 @@ func c11Patches() []c11Patch {
 		{"match-only", &model.Change{Kind: "expr", Meta: xm, Imports: []model.Import{imp(" ", "", "old/p")}, Lines: model.L("-p.Foo(x)", "+p.Bar(x)")}, `"old/p"`, "p", "p.Foo(1)"},
 		{"replace-package", &model.Change{Kind: "expr", Meta: xm, Imports: []model.Import{imp("-", "", "old/p"), imp("+", "", "new/q")}, Lines: model.L("-p.Foo(x)", "+q.Foo(x)")}, `"old/p"`, "p", "p.Foo(1)"},
 		{"delete-v1", &model.Change{Kind: "expr", Meta: xm, Imports: []model.Import{imp("-", "", "old/api/v1")}, Lines: model.L("-v1.Foo(x)", "+foo(x)")}, `"old/api/v1"`, "v1", "v1.Foo(1)"},
+		// one change listing several imports (the records kept per matched import must not leak from one to the next)
+		{"two:metavar-unnamed+context", &model.Change{Kind: "expr", Meta: nm, Imports: []model.Import{imp("-", "n", "old/p"), imp("+", "n", "new/p"), imp(" ", "", "ctx/http")}, Lines: model.L("-n.Foo(x)", "+n.Bar(x)")}, `"old/p";"ctx/http"`, "p", "n.Foo(http.Client)"},
+		{"two:metavar-named+context", &model.Change{Kind: "expr", Meta: nm, Imports: []model.Import{imp("-", "n", "old/p"), imp("+", "n", "new/p"), imp(" ", "", "ctx/http")}, Lines: model.L("-n.Foo(x)", "+n.Bar(x)")}, `pp "old/p";"ctx/http"`, "pp", "pp.Foo(http.Client)"},
+		{"two:context+metavar-unnamed", &model.Change{Kind: "expr", Meta: nm, Imports: []model.Import{imp(" ", "", "ctx/http"), imp("-", "n", "old/p"), imp("+", "n", "new/p")}, Lines: model.L("-n.Foo(x)", "+n.Bar(x)")}, `"ctx/http";"old/p"`, "p", "n.Foo(http.Client)"},
+		{"two:named+context", &model.Change{Kind: "expr", Meta: xm, Imports: []model.Import{imp("-", "pp", "old/p"), imp("+", "pp", "new/p"), imp(" ", "", "ctx/http")}, Lines: model.L("-pp.Foo(x)", "+pp.Bar(x)")}, `pp "old/p";"ctx/http"`, "pp", "pp.Foo(http.Client)"},
+		{"two:delete+delete", &model.Change{Kind: "expr", Meta: xm, Imports: []model.Import{imp("-", "", "old/p"), imp("-", "", "old/r")}, Lines: model.L("-p.Foo(r.Wrap(x))", "+foo(x)")}, `"old/p";"old/r"`, "p", "p.Foo(r.Wrap(1))"},
+		{"two:delete+delete-second-used", &model.Change{Kind: "expr", Meta: xm, Imports: []model.Import{imp("-", "", "old/r"), imp("-", "", "old/p")}, Lines: model.L("-r.Foo(p.Wrap(x))", "+foo(x)")}, `"old/r";"old/p"`, "p", "r.Foo(p.Wrap(1))"},
+		{"two:metavar+metavar", &model.Change{Kind: "expr", Meta: []model.MetaVar{{Name: "x", Kind: "expression"}, {Name: "n", Kind: "identifier"}, {Name: "m", Kind: "identifier"}}, Imports: []model.Import{imp("-", "n", "old/p"), imp("+", "n", "new/p"), imp(" ", "m", "ctx/http")}, Lines: model.L("-n.Foo(x)", "+n.Bar(x, m.Client)")}, `"old/p";hh "ctx/http"`, "p", "n.Foo(hh.Client)"},
 		{"add-v1-next-to-api", &model.Change{Kind: "expr", Meta: xm, Imports: []model.Import{imp(" ", "", "legacy/api"), imp("+", "", "new/api/v1")}, Lines: model.L("-api.Foo(x)", "+v1.Foo(x)")}, `"legacy/api"`, "api", "api.Foo(1)"},
 	}
 }
@@ -87,7 +95,7 @@ var c11Others = []string{`nn "x/named"`, `_ "x/blank"`, `. "x/dot"`, `"x/plain"`
 
 func c11Gen(tier string, emit func(any)) {
 	maxSub := c11Subset(tier)
-	uses := []string{"none", "plain", "chained", "in-arg", "site-only-twice"}
+	uses := []string{"none", "plain", "chained", "in-arg", "site-only-twice", "shadowed"}
 	for _, p := range c11Patches() {
 		for mask := 0; mask < 1<<len(c11Others); mask++ {
 			var others []string
@@ -109,7 +117,7 @@ func c11Gen(tier string, emit func(any)) {
 					}
 					specs := append([]string{}, others[:pos]...)
 					if p.fileImp != "" {
-						specs = append(specs, p.fileImp)
+						specs = append(specs, strings.Split(p.fileImp, ";")...)
 					}
 					specs = append(specs, others[pos:]...)
 					for _, u := range uses {
@@ -176,13 +184,17 @@ func c11File(specs []string, layout string, p c11Patch, uses string) string {
 		b.WriteString("\tg(" + n + ".X).Y()\n")
 	}
 	b.WriteString("}\n")
+	if uses == "shadowed" {
+		// a parameter and a local variable named like the package: selecting from them is no use of the package
+		b.WriteString("\nfunc shadow(" + n + " T) {\n\t" + n + ".Field.M()\n}\n\nfunc shadow2() {\n\tvar " + n + " T\n\tg(" + n + ".Field)\n}\n")
+	}
 	return b.String()
 }
 
 type impSpec struct{ name, path string }
 
 func importsOf(src []byte) ([]impSpec, *ast.File, error) {
-	f, err := parser.ParseFile(token.NewFileSet(), "a.go", src, parser.SkipObjectResolution)
+	f, err := parser.ParseFile(token.NewFileSet(), "a.go", src, 0) // with object resolution: refersTo needs it
 	if err != nil {
 		return nil, nil, err
 	}
@@ -210,7 +222,9 @@ func refersTo(f *ast.File, name string) bool {
 	found := false
 	ast.Inspect(f, func(n ast.Node) bool {
 		if se, ok := n.(*ast.SelectorExpr); ok {
-			if id, ok := se.X.(*ast.Ident); ok && id.Name == name {
+			// an identifier that go/parser resolved to a declaration of this file (parameter, local variable)
+			// is not the package
+			if id, ok := se.X.(*ast.Ident); ok && id.Name == name && id.Obj == nil {
 				found = true
 			}
 		}
